@@ -103,6 +103,54 @@ pub fn record(cases: &str, table: &str, seed: u64, n: usize, out: &str) {
             t.emit(Value::Object(ev));
         }
     });
+    // bulk requests beyond 2^20 draws: exactly the requested count / shape (cheap laws only)
+    for (k, kind) in ["Normal", "Uniform", "Exponential"].iter().enumerate() {
+        let kind2 = kind.to_string();
+        let nn = (1usize << 20) + 3;
+        let res = run_with_timeout(move || {
+            let d = D::new(&kind2, &if kind2 == "Exponential" { vec![2.0] } else { vec![0.0, 1.0] }).expect("valid parameters");
+            alea::set_seed(5 + k as u64);
+            let xs = d.sample_n(nn);
+            let m = d.sample_matrix(1500, 1000);
+            (xs.len() == nn, xs.iter().all(|x| x.is_finite()), m.nrows == 1500 && m.ncols == 1000 && m.data.len() == 1_500_000)
+        }, limit);
+        let mut ev = json!({"kind": kind, "p": [], "regime": "bulk request > 2^20", "n": nn, "seed": 5 + k}).as_object().unwrap().clone();
+        let (o, c, sup, sh) = match res { Ok(Some((c, sup, sh))) => ("ok", c, sup, sh), Err(_) => ("timeout", false, false, false), _ => ("panic", false, false, false) };
+        ev.insert("out".into(), json!(o)); ev.insert("count_ok".into(), json!(c)); ev.insert("support_ok".into(), json!(sup)); ev.insert("shape_ok".into(), json!(sh));
+        ev.insert("integer_ok".into(), json!(true)); ev.insert("repro_ok".into(), json!(true)); ev.insert("cnt".into(), json!([])); ev.insert("nF".into(), json!([]));
+        t.emit(Value::Object(ev));
+    }
+    // binomial laws with a huge number of trials and a success probability within 2^-22 of 0 or 1 (spec/ref/binom_tiny.ndjson)
+    let tiny_path = std::path::Path::new(table).parent().unwrap().join("binom_tiny.ndjson");
+    let mut tiny_rows: Vec<Value> = vec![];
+    if tiny_path.exists() { for_each_line(tiny_path.to_str().unwrap(), |r| tiny_rows.push(r)); }
+    for (k, r) in tiny_rows.iter().enumerate() {
+        let nt = r["n"].as_u64().unwrap();
+        let mut p = r["pn"].as_f64().unwrap() / 2f64.powi(r["pe"].as_i64().unwrap() as i32);
+        let flip = r["flip"].as_bool().unwrap();
+        if flip { p = 1.0 - p; }
+        let pts: Vec<(f64, f64)> = r["pts"].as_array().unwrap().iter().map(|q| (q["k"].as_f64().unwrap(), q["cdf"].as_str().unwrap().parse::<f64>().unwrap())).collect();
+        let nn = n.min(50000);
+        let pts2 = pts.clone();
+        let res = run_with_timeout(move || {
+            let d = Binomial::new(nt, p);
+            alea::set_seed(900 + k as u64);
+            let xs = d.sample_n(nn);
+            let mut sorted = xs.to_vec();
+            sorted.sort_by(|a, b| a.partial_cmp(b).unwrap_or(std::cmp::Ordering::Equal));
+            (xs.len() == nn, xs.iter().all(|x| *x >= 0.0 && *x <= nt as f64), xs.iter().all(|x| *x == x.trunc()),
+             pts2.iter().map(|(t, _)| sorted.partition_point(|x| *x <= *t) as i64).collect::<Vec<i64>>())
+        }, limit);
+        let nf: Vec<i64> = pts.iter().map(|(_, f)| (f * nn as f64).round() as i64).collect();
+        let mut ev = json!({"kind": "Binomial", "p": [nt, p], "regime": if flip { "huge n, p within 2^-22 of 1" } else { "huge n, p within 2^-22 of 0" }, "n": nn, "seed": 900 + k}).as_object().unwrap().clone();
+        match res {
+            Ok(Some((c, sup, int, cnt))) => { ev.insert("out".into(), json!("ok")); ev.insert("count_ok".into(), json!(c)); ev.insert("support_ok".into(), json!(sup)); ev.insert("integer_ok".into(), json!(int));
+                ev.insert("repro_ok".into(), json!(true)); ev.insert("shape_ok".into(), json!(true)); ev.insert("cnt".into(), json!(cnt)); ev.insert("nF".into(), json!(nf)); }
+            other => { ev.insert("out".into(), json!(if other.is_err() { "timeout" } else { "panic" }));
+                for key in ["count_ok", "support_ok", "integer_ok", "repro_ok", "shape_ok"] { ev.insert(key.into(), json!(false)); } ev.insert("cnt".into(), json!([])); ev.insert("nF".into(), json!([])); }
+        }
+        t.emit(Value::Object(ev));
+    }
     // degenerate but valid continuous uniform laws (lower = upper): every draw is the single support point; reached by the
     // constructor, by a setter and by the bulk update
     for (k, cpt) in [0.0f64, 2.5, -1000.0].iter().enumerate() {
